@@ -8,6 +8,8 @@ the modelled part is logic, not data):
   * e2e  — generated programs (flows with parameters/defaults, assign / global / return / send / nested calls in the
            forms await / start / activate) through the real `run_to_completion`, against `Bind.exec`:
            emitted events and the final context of every flow instance (in creation order) and the global context;
+  * hist — (kind e2e) histories with in-place mutation of default / local containers and repeated calls with omitted
+           arguments, against the heap interpreter `Bind.hexec` (reference semantics; also the callee ENTRY contexts);
   * probe— event-driven privacy programs (instances that wait, are resumed later and emit their variables) and
            aliasing programs (in-place `append`/`update` on a passed list/dict); oracle only.
 Oracle (independent of the Lean model): `spec_run`, a direct transcription of the property statement — parameter i gets
@@ -32,7 +34,12 @@ RULE = ("fn: signature of 0-5 parameters (each with/without default; defaults of
         "signatures <= 3 parameters are enumerated. e2e: random programs of 1-3 callee flows (echo parameters, same-named "
         "locals, globals, nested calls, return expressions) called from main by await/start/activate. probe: waiting "
         "siblings/callees resumed by events, in-place mutation of passed containers, return-value capture (await / start + match "
-        "$r.Finished() / match f(..).Finished()) inside bodies duplicated by the `when` expansion (or-groups, cases, else, nested). non-trivial = at least one parameter "
+        "$r.Finished() / match f(..).Finished()) inside bodies duplicated by the `when` expansion (or-groups, cases, else, nested). "
+        "hist (kind e2e): histories with in-place mutation — flows whose parameters / return members / locals hold containers (list, nested list, "
+        "dict, dict of list, set; same default text in several flows) mutated by expression statements, called 2-6 times with the argument omitted / "
+        "positional / named by await/start/activate, return values kept and re-emitted; 15% pass container variables (finding region). "
+        "restart probes: activated flow that finishes and restarts, default mutated in place or re-assigned, argument omitted or supplied. "
+        "non-trivial = at least one parameter "
         "bound from an argument or default (fn) / at least one call with arguments or a return value (e2e, probe); "
         "distinct = distinct case JSON.")
 TRUSTED_BASE = [
@@ -41,7 +48,8 @@ TRUSTED_BASE = [
     "rendering of the generated program AST to Colang source (harness) — both sides start from the same AST",
 ]
 ASSUMPTIONS = [
-    "values are immutable in the model: in-place mutation through expression side effects (list.append, AttributeDict write-back) is outside it — probed end-to-end, recorded as an open finding",
+    "value model `exec`: values are immutable; heap model `hexec`: every user value is a heap cell holding a tree (no addresses inside a cell: objects nested in a passed container and mutated through a path, and the AttributeDict write-back, are outside it); eleven container methods are modelled",
+    "programs that mutate in place run in a forked child of the worker (process-wide state of the code under test cannot leak between cases); emitted events are observed with the values they have at emission (deep copy on append to state.outgoing_events); callee entry contexts are snapshots taken by a wrapper around `_start_flow`",
     "user variables do not start with `_` (the expansion's hidden `_ref_…`/`_event_ref_…` variables live in the same context); parameter names are identifiers, never `$<digits>`",
     "e2e fragment: callee bodies run synchronously to their end or to `match Never()` (the event queue is abstracted; the FlowStarted / FlowFinished matches of a call go through the C04 matcher model, pattern evaluated at match time); defaults are evaluated once per call in the empty context",
     "modelled by hand: create_flow_instance, _start_flow, slide branches Assignment/Global/Return, _get_eval_context + `$var` lookup of eval_expression, FlowState.finished_event/_create_out_event, the expansion shape of `$x = await f(..)`",
@@ -797,7 +805,7 @@ def gen_cases(rng, tier):
     cases += [g_fn(rng) for _ in range(n_fn)]
     modes = [None] * 12 + ["clash", "clash", "surplus", "unknown-named", "dup-named", "reserved"]
     cases += [g_prog(rng, rng.choice(modes)) for _ in range(n_e2e)]
-    cases += [g_hist(rng, passed=rng.random() < 0.15) for _ in range(n_e2e)]
+    cases += [g_hist(rng, passed=rng.random() < 0.15) for _ in range(n_e2e if tier == "quick" else n_e2e // 2)]
     cases += [g_probe(rng) for _ in range(n_probe)]
     cases += [g_when_probe(rng) for _ in range(2 * n_probe)]
     cases += [g_restart_probe(rng) for _ in range(n_probe)]
@@ -1013,13 +1021,23 @@ def _isolated(src, events):
     return json.loads(data)
 
 
+def _mutates(case):
+    """does the program mutate a value in place?  Only such a program can change an object that the code under test
+    keeps at module level (a memoised default, …) — those run isolated; a program without in-place mutation cannot leave
+    anything behind and runs in the worker itself (a fork of a worker costs ~20 ms)"""
+    if case["kind"] == "e2e":
+        p = case["prog"]
+        return any(s_["op"] == "mut" for b in [p["main"]] + [f["body"] for f in p["flows"]] for s_ in b)
+    return case["kind"] == "probe" and (case["tmpl"].startswith(("inplace-", "restart-")) or ".append(" in case["src"] or ".update(" in case["src"])
+
+
 def run_impl(case):
     if case["kind"] == "fn":
         return run_fn(case)
     if case["kind"] == "e2e":
-        return _isolated(render_prog(case["prog"]), [])
+        return (_isolated if _mutates(case) else run_prog)(render_prog(case["prog"]), [])
     if case["kind"] == "probe":
-        return _isolated(case["src"], case["events"])
+        return (_isolated if _mutates(case) else run_prog)(case["src"], case["events"])
     raise ValueError(case["kind"])
 
 
